@@ -235,6 +235,34 @@ def run(chk):
                 if case["basis"] == "Identity" and case["bmodes"] is None and any("basis_matrix_" in x for x in d):
                     sig = "identity-default-modes-frozen"
                 chk.violation("correspondence", sig, f"model and implementation differ after step {i} {op}: {'; '.join(d)}", {"case": M.jsonable(case), "step": i, "diffs": d})
+    # ---- data that cannot support the requested number of modes, then data that can: the refit must look like a fresh fit
+    from pysensors.reconstruction import SSPOR
+    for _ in range(40 if thorough else 12):
+        w = int(rng.integers(6, 12))
+        kreq = int(rng.integers(3, w + 1))
+        small = int(rng.integers(1, kreq))             # fewer examples than requested modes (the SVD basis then returns fewer modes)
+        big = int(rng.integers(kreq, kreq + 5))
+        X1 = rng.integers(-24, 25, size=(small, w)) / 8.0
+        X2 = rng.integers(-24, 25, size=(big, w)) / 8.0
+        ocfg = M.opt_cfg(rng, [w])
+        case = {"scenario": "SVD basis: few examples, then enough", "n_basis_modes": kreq, "X1": X1.tolist(), "X2": X2.tolist(), "opt": ocfg}
+        chk.case(case)
+        chk.count("svd_small_then_big")
+        try:
+            mdl = SSPOR(basis=impl.make_basis({"kind": "SVD", "n_basis_modes": kreq}), optimizer=impl.make_optimizer(ocfg))
+            try:
+                impl.quiet(mdl.fit, X1, quiet=True, seed=5)
+            except Exception:
+                chk.count("svd_small_rejected")
+            impl.quiet(mdl.fit, X2, quiet=True, seed=5)
+            fresh = SSPOR(basis=impl.make_basis({"kind": "SVD", "n_basis_modes": kreq}), optimizer=impl.make_optimizer(ocfg))
+            impl.quiet(fresh.fit, X2, quiet=True, seed=5)
+            a, b = np.array(mdl.basis_matrix_), np.array(fresh.basis_matrix_)
+            if a.shape != b.shape or not np.allclose(a, b, rtol=1e-9, atol=1e-9) or list(mdl.all_sensors) != list(fresh.all_sensors):
+                chk.violation("impl", "refit-differs-from-fresh", f"SVD({kreq}) fitted on {small} examples and then on {big}: basis_matrix_ {a.shape}, "
+                              f"ranking {list(map(int, mdl.all_sensors))} vs fresh {b.shape}, {list(map(int, fresh.all_sensors))}", case)
+        except Exception as e:
+            chk.violation("impl", "refit-raises", f"SVD({kreq}) refit on enough examples raised {type(e).__name__}: {e}", case)
     return chk.finish(TRUSTED, "make -C coq && coqc theories/Properties/C15.v && coqc cases_*.v (vm_compute)")
 
 
